@@ -522,6 +522,43 @@ apply: (@source_family_means_sum expm expm_sound regf n Ss Slast alpha ts H0 H1 
 Qed.
 End SrcSum.
 
+(* a deme that holds no lineage in a state has reward 0 there, whatever it is combined with *)
+Lemma deme_reward_zero (nn : nat) (r : reward) (d : nat) (s : state) :
+  deme_lineages s d = 0%N -> reward_get OpsR nn (RProduct [:: r; RDeme d]) s = 0.
+Proof.
+move=> dz; rewrite product_reward_pointwise /= dz /=.
+rewrite /Rdiv; change (INR 0) with R0.
+by rewrite !(Rmult_0_l, Rmult_0_r).
+Qed.
+
+Section SrcZero.
+Variable expm : seq (seq R) -> seq (seq R).
+Hypothesis expm_sound : forall n A, wf n n A -> wf n n (expm A) /\ mx_of n n (expm A) = mexp (mx_of n n A).
+Variables (regf : seq (seq R) -> R) (n : nat) (Ss : seq (Q * seq (seq R))) (Slast : seq (seq R)) (alpha : seq R) (ts : seq Q).
+Hypothesis H0 : regf (List.hd (None, Slast) (all_epochs Ss Slast)).2 <> 0.
+Hypothesis H1 : List.Forall (fun x : Q * seq (seq R) => wf n n x.2) Ss.
+Hypothesis H2 : wf n n Slast.
+Hypothesis H5 : epochs_wf (seq (seq R)) 0%QQ Ss.
+Hypothesis H6 : List.Forall (fun t => (0 <= t)%QQ) ts.
+Let A := acc1 expm regf Ss Slast alpha ts.
+
+(* property C12: a population that holds no lineage in any state of the state space contributes EXACTLY zero to every first moment,
+   at every end time, on any demography *)
+Theorem source_unvisited_deme_contributes_zero (nn nl d : nat) (r : reward) (sts : seq state) :
+  size sts = n -> reward_ok nn r = true -> List.Forall (fun s => n_loci s = nl) sts ->
+  List.Forall (fun s => deme_lineages s d = 0%N) sts ->
+  A [seq gen_reward_get OpsR nn nl (RProduct [:: r; RDeme d]) s | s <- sts] = nseq (size ts) 0.
+Proof.
+move=> ssz rok Hnl Hz.
+have rok' : reward_ok nn (RProduct [:: r; RDeme d]) = true by rewrite /= rok.
+have -> : [seq gen_reward_get OpsR nn nl (RProduct [:: r; RDeme d]) s | s <- sts] = nseq n 0.
+  have := gen_reward_vector_eq_R nn nl _ sts rok' Hnl; rewrite /reward_vector !L_map => ->.
+  rewrite -ssz; elim: Hz => [|s l sz _ IH] //.
+  by rewrite map_cons deme_reward_zero // IH.
+exact: (@source_first_moment_zero expm expm_sound regf n Ss Slast alpha ts).
+Qed.
+End SrcZero.
+
 Print Assumptions evalM_ur_linear.
 Print Assumptions source_first_moment_linear.
 Print Assumptions source_first_moment_sum.
@@ -535,3 +572,4 @@ Print Assumptions source_family_means_sum.
 Print Assumptions source_expected_sfs_sums_to_branch_length.
 Print Assumptions source_expected_folded_sfs_sums_to_branch_length.
 Print Assumptions source_sum_reward_mean.
+Print Assumptions source_unvisited_deme_contributes_zero.
